@@ -1,17 +1,19 @@
 ------------------------------ MODULE MC_Config ------------------------------
 EXTENDS Config
 Shapes == {"minimal", "registers", "macros", "zones", "predefined", "json"}
-ScDef == { S("def", sh, f, NoV, NoV, "", TRUE) : sh \in Shapes, f \in Faults \cup {"none"} }
+ScDef == { S("def", sh, f, NoV, NoV, "", "same") : sh \in Shapes, f \in Faults \cup {"none"} }
 Nums == {0, 1, 2, 3, 4, 9, 10, 11}
 Pres == { Final, PreRank("b", 1), PreRank("b", 2), PreRank("rc", 1), PreRank("a", 1) }
-ScMinVerFull == { S("minver", "minimal", "none", Ver(<<a, b, c>>, p), NoV, "", TRUE) : a \in {0, 1}, b \in Nums, c \in Nums, p \in Pres }
-ScMinVer2 == { S("minver", "minimal", "none", Ver(<<a, b>>, p), NoV, "", TRUE) : a \in {0, 1}, b \in Nums, p \in {Final, PreRank("rc", 1)} }
+ScMinVerFull == { S("minver", "minimal", "none", Ver(<<a, b, c>>, p), NoV, "", "same") : a \in {0, 1}, b \in Nums, c \in Nums, p \in Pres }
+ScMinVer2 == { S("minver", "minimal", "none", Ver(<<a, b>>, p), NoV, "", "same") : a \in {0, 1}, b \in Nums, p \in {Final, PreRank("rc", 1)} }
 ScMinVerQuick == { x \in ScMinVerFull : x.v.rel[3] \in {0, 2, 3, 4, 10} /\ x.v.rel[2] \in {0, 2, 3, 4, 10} }
 IsaVs == { Ver(<<1, 2, 3>>, Final), Ver(<<0, 10, 0>>, Final), Ver(<<1, 0, 0>>, PreRank("b", 2)) }
 ReqVs == { Ver(<<1, 2, 3>>, Final), Ver(<<1, 2, 10>>, Final), Ver(<<1, 10, 0>>, Final), Ver(<<0, 9, 9>>, Final), Ver(<<0, 10>>, Final),
            Ver(<<1, 0, 0>>, Final), Ver(<<1, 0, 0>>, PreRank("b", 1)), Ver(<<1, 0, 0>>, PreRank("b", 2)), Ver(<<1, 0, 0>>, PreRank("rc", 1)), Ver(<<2>>, Final) }
-ScRequire == { S("require", "minimal", "none", v, iv, op, nm) : v \in ReqVs, iv \in IsaVs, op \in {"==", ">=", "<=", ">", "<"}, nm \in BOOLEAN }
-             \cup { S("require", "minimal", "none", NoV, iv, "", nm) : iv \in IsaVs, nm \in BOOLEAN }
+ReqNames == {"same", "other", "prefix", "suffix", "infix", "longer", "empty"}
+ScRequire == { S("require", "minimal", "none", v, iv, op, nm) : v \in ReqVs, iv \in IsaVs, op \in {"==", ">=", "<=", ">", "<"}, nm \in {"same", "other"} }
+             \cup { S("require", "minimal", "none", v, iv, op, nm) : v \in {Ver(<<1, 0, 0>>, Final)}, iv \in IsaVs, op \in {">=", "<"}, nm \in ReqNames }
+             \cup { S("require", "minimal", "none", NoV, iv, "", nm) : iv \in IsaVs, nm \in ReqNames }
 ScQuick == ScDef \cup ScMinVerQuick \cup ScMinVer2 \cup ScRequire
 ScThorough == ScDef \cup ScMinVerFull \cup ScMinVer2 \cup ScRequire
 =============================================================================
